@@ -47,11 +47,13 @@ func (sharedMutex *SharedMutex) Lock(resources commservices.LockMap) (handler co
 	})
 	for _, row := range list {
 		mu := sharedMutex.get(row.Name)
+		verifPoint("lock.next", row.Name, row.Value)
 		if row.Value == commservices.LockR {
 			mu.RLock()
 		} else {
 			mu.Lock()
 		}
+		verifPoint("lock.got", row.Name, row.Value)
 	}
 	return &unlockHandler{
 		list:        list,
